@@ -488,6 +488,13 @@ def C09_fallbacks(ctx, rid, core):
                 if gg[0] == "arm":
                     vs = [H.last(v) for v in H.pat_variants(gg[1]["pat"])]
                     lab = "|".join(vs) if vs else "_"
+                    if not vs and len(gg) > 5 and isinstance(gg[5], dict):
+                        # a catch-all arm: the finding is about the node kinds that reach it (one more kind falling through is a new finding)
+                        explicit = {H.last(v) for a_ in gg[5]["arms"] for v in H.pat_variants(a_["pat"])}
+                        ety = next((v.rsplit("::", 1)[0] for a_ in gg[5]["arms"] for v in H.pat_variants(a_["pat"])), None)
+                        allv = [v["name"] for v in (core.types.get(ety) or {}).get("variants", [])] if ety else []
+                        if allv:
+                            lab = "_=" + ",".join(sorted(set(allv) - explicit))
             i = k.get(lab, 0)
             k[lab] = i + 1
             ctx.inst(rid, "%s[%s]->expr_to_source#%d" % (name.replace(CORE, ""), lab or "-", i), False,
